@@ -7,7 +7,7 @@ import json, os, re, shutil, subprocess, sys
 HERE = os.path.dirname(os.path.dirname(os.path.abspath(__file__)))
 prop, label = sys.argv[1], sys.argv[2]
 extra = sys.argv[3:]
-src = '/tmp/%s/%s/%s' % ({'A': 'seedout', 'B': 'seedout', 'C': 'seedout2', 'D': 'seedout2', 'E': 'seedout3', 'F': 'seedout3'}.get(label, 'seedout4'), prop, label)
+src = '/tmp/%s/%s/%s' % ({'A': 'seedout', 'B': 'seedout', 'C': 'seedout2', 'D': 'seedout2', 'E': 'seedout3', 'F': 'seedout3', 'L': 'seedout6', 'M': 'seedout6'}.get(label, 'seedout4'), prop, label)
 dst = os.path.join(HERE, 'seeded', '%s-%s' % (prop, label))
 os.makedirs(dst, exist_ok=True)
 for name in ('patch.diff', 'demo.py', 'notes.md'):
@@ -24,7 +24,7 @@ meta = json.load(open(meta_path)) if os.path.exists(meta_path) else {}
 meta.update({
     'property': prop, 'site': ', '.join(files),
     'needs': meta.get('needs') or ' '.join(notes.split())[:600],
-    'origin': 'fresh sub-agent given only the property text and a scratch worktree of /repo',
+    'origin': 'fresh sub-agent given the property text(s), the list of sites used before and a scratch worktree of /repo',
     'verified': {'demo_on_clean_tree_exit': result.get('demo_clean'), 'demo_with_change_exit': result.get('demo_changed'),
                  'repository_suite_with_change': result.get('suite'), 'valid': valid},
     'ran': 'tools/run_seeded.py seeded/%s-%s %s   (quick tier, VERIF_SEED=%s, scratch worktree of /repo HEAD + patch)' % (
